@@ -38,12 +38,45 @@ def representable(s, enc):
         return False
 
 
+# a "Unicode zoo": code points from many general categories and scripts, including the ones with odd case
+# mappings, digit/letter look-alikes and invisible or direction-changing characters
+ZOO_RANGES = [
+    (0x00A1, 0x00FF), (0x0100, 0x017F), (0x0180, 0x024F), (0x0370, 0x03FF), (0x0400, 0x04FF), (0x0531, 0x0587),
+    (0x05D0, 0x05EA), (0x0621, 0x064A), (0x0660, 0x0669), (0x0905, 0x0939), (0x0966, 0x096F), (0x0E01, 0x0E30),
+    (0x10A0, 0x10FF), (0x1E00, 0x1EFF), (0x1F00, 0x1FFF), (0x2000, 0x206F), (0x2070, 0x209F), (0x20A0, 0x20BF),
+    (0x2100, 0x214F), (0x2150, 0x218B), (0x2190, 0x21FF), (0x2460, 0x24FF), (0x2C00, 0x2C5F), (0x3041, 0x3096),
+    (0x30A1, 0x30FA), (0x4E00, 0x4E50), (0xAC00, 0xAC40), (0xFB00, 0xFB06), (0xFF01, 0xFF5E), (0xFE00, 0xFE0F),
+    (0x0300, 0x036F), (0x1D400, 0x1D433), (0x1F600, 0x1F64F), (0x10400, 0x1044F), (0xE000, 0xE010),
+]
+ZOO_SINGLES = ["İ", "ı", "ẞ", "ß", "ſ", "ǅ", "ǈ", "ǲ", "K", "Å", "Ω", "ϴ", "ς", "ﬁ", "ŉ", "ǰ", "ΐ", "ᾳ", "Ⅷ", "ⅷ", "Ⓐ", "ⓩ",
+               "²", "½", "٣", "３", "۵", "\u00ad", "\u200d", "\u202e", "\ufeff", "\u00a0", "\u3000", "\U0001d7d8"]
+
+
+def zoo_char(t):
+    if t.chance(1, 3):
+        return ZOO_SINGLES[t.draw(len(ZOO_SINGLES))]
+    lo, hi = ZOO_RANGES[t.draw(len(ZOO_RANGES))]
+    c = chr(lo + t.draw(hi - lo + 1))
+    if c in "\u2028\u2029\u0085\u03a3" or 0xD800 <= ord(c) <= 0xDFFF:
+        # (capital sigma is left out: str.lower() maps it to a final or a medial sigma depending on its neighbours, so
+        # lower-casing a segment and lower-casing the section around it differ -- the reference tallies do not model that)
+        return "x"
+    return c
+
+
 TRICKY_BITS = ["19", "20", "195", "201", "199", "2019", "1", "9", "may", "x", "a", "#1", "No.", "<3", ".", "@", "www.", ".com",
                "1q", "az", "qw", "er", "12", "3", "!", "i", "I", "й", "ц", "у", "к"]
 
 
 def gen_password(t, flavour):
     parts = []
+    if flavour.get("zoo") and t.chance(1, 3):
+        # a word, digits or a symbol with one to three zoo characters spliced in or glued on
+        base = t.choice(WORDS + CAPWORDS + DIGS + SYMS + WALKS)
+        for _ in range(t.between(1, 3)):
+            k = t.draw(len(base) + 1)
+            base = base[:k] + zoo_char(t) + base[k:]
+        return base
     if flavour.get("tricky") and t.chance(1, 3):
         # adversarial mode: many short trigger fragments glued together, so patterns touch, overlap and repeat
         return "".join(t.choice(TRICKY_BITS) for _ in range(t.between(2, 6)))
